@@ -17,7 +17,7 @@ MANIFEST = dict(
         "potrf_correct (returns 0 => L L^T = A on the stored triangle, other triangle untouched), potrf_upper_correct, potrf_info_spec "
         "(returns k+1 => first k pivots positive, Schur pivot k <= 0); getrf_correct (no exception => P A = L U for the recorded "
         "transposition sequence); solve_eq_of_factorisation and its instance solve_spd_correct (solve(A,b,symm_pos_def) returns x with "
-        "A x = b), solve_spd_unique, solve_lu_correct (solve(A,b,indefinite_full_rank,left) returns x with A x = b); inv_prod_is_solve / inv_prod_is_solve_spd (explicit inverse times b = the solve call); "
+        "A x = b), solve_spd_unique, solve_lu_correct (solve(A,b,indefinite_full_rank,left) returns x with A x = b), solve_lu_right_correct and solve_spd_right_correct (the right-sided vector solves return x with x A = b); inv_prod_is_solve / inv_prod_is_solve_spd (explicit inverse times b = the solve call); "
         "cholUpdate_correct (rank-one update of a Cholesky factor, model updStep/cholUpdate written statement by statement after cholesky_decomposition::update: "
         "for every size, every lower factor with non-zero diagonal, every update vector incl. zero components anywhere, every beta != 0 and alpha with an exact root: "
         "no exception => L' L'^T = alpha L L^T + beta v v^T) and cholUpdate_scale_correct (beta = 0); the expression rewrites of solve.hpp: row_of_left_solve / "
@@ -39,7 +39,7 @@ MANIFEST = dict(
   note=TRUST + "PARTIAL. Proved only on the model: everything listed in `text` as theorem. potrf_strict_correct_partial needs 'no pivot is exactly zero' "
        "(the unrepaired (row_major,upper) kernel accepts a zero pivot: finding C02-potrf-zero-pivot-accepted, fixed in /repo). NOT theorems, exercised by the "
        "correspondence / residual oracle only: pivoted Cholesky pstrf and the semi-definite solver incl. the least-squares clause (modelled and "
-       "compared exactly, nothing proved), the right-hand-side / matrix-rhs forms of the LU- and Cholesky-based solves (left vector forms are proved), "
+       "compared exactly, nothing proved), the matrix-rhs forms of the LU- and Cholesky-based solves (the vector forms, left and right, are proved; the model applies them column by column), "
        "the rewrites row/prod for the non-triangular tags (the general lemmas row_of_left_solve / prod_of_right_solve take the defining equations as hypotheses), "
        "that update() throws exactly when the updated matrix is not positive definite (INDEPENDENT ORACLE in the harness: long-double Cholesky of the separately accumulated target, undecided within 1e-6 of singular), "
        "conjugate gradient, symmetric eigendecomposition (INDEPENDENT ORACLE only, no model), the blocked recursions "
